@@ -32,8 +32,18 @@ def classify(c):
         if 300000 % step != 0:
             return "step-bucket-off-grid"
         g, w = points(c.get("got")), points(c.get("want"))
-        if all(k in g and g[k] == v for k, v in w.items()) and not c.get("got_err") and not c.get("want_err"):
+        if c.get("got_err") or c.get("want_err"):
+            return None
+        if all(k in g and g[k] == v for k, v in w.items()):
             return "step-bucket-staleness-edge"      # only additional points: samples just older than the look-back
+        # inside `or` / `unless` / a binary operation the re-appearing sample changes or removes a point instead of adding
+        # one: accepted only when, at EVERY differing evaluation time, some stored sample is older than the look-back by
+        # less than one step for one of the offsets of the expression (the precondition of the recorded finding)
+        offs = {0} | {int(n) * {"s": 1000, "m": 60000, "h": 3600000, "d": 86400000}[u] for n, u in re.findall(r"offset (\d+)([smhd])", c["expr"])}
+        tss = [x["ts_ns"] // 1000000 for x in c["db"]["samples"]]
+        differing = {k[1] for k in set(g) | set(w) if g.get(k) != w.get(k)}
+        if differing and all(any(300000 < t - o - ts < 300000 + step for ts in tss for o in offs) for t in differing):
+            return "step-bucket-staleness-edge"
     return None
 
 
